@@ -161,6 +161,13 @@ def nested_lattice_decks(seed, n):
                  {'n': 11, 'k': 'px', 'p': [W]}, {'n': 12, 'k': 'px', 'p': [-W]}, {'n': 13, 'k': 'py', 'p': [W]}, {'n': 14, 'k': 'py', 'p': [-W]},
                  {'n': 21, 'k': 'px', 'p': [-W + 2 * w]}, {'n': 22, 'k': 'px', 'p': [-W]}, {'n': 23, 'k': 'py', 'p': [-W + 2 * w]}, {'n': 24, 'k': 'py', 'p': [-W]},
                  {'n': 31, 'k': 'pz', 'p': [0]}, {'n': 32, 'k': 'pz', 'p': [1]}, {'n': 33, 'k': 'pz', 'p': [-2]}]
+        if rng.random() < 0.5:
+            # the unit cells written with the facets of one RPP each instead of four planes (facet 1 = xmax, 2 = xmin,
+            # 3 = ymax, 4 = ymin; '-b.k' is the side of the facet towards the inside of the body)
+            surfs += [{'n': 15, 'k': 'rpp', 'p': [-W, W, -W, W, -70, 70]},
+                      {'n': 25, 'k': 'rpp', 'p': [-W, -W + 2 * w, -W, -W + 2 * w, -70, 70]}]
+            cells[2]['geom'] = ['*', ['S', -15, 1], ['S', -15, 2], ['S', -15, 3], ['S', -15, 4]]
+            cells[3]['geom'] = ['*', ['S', -25, 1], ['S', -25, 2], ['S', -25, 3], ['S', -25, 4]]
         d = adeck.normalise({'cells': cells, 'surfs': surfs})
         d['rhovalues'] = [-1.0]
         decks.append(d)
@@ -224,6 +231,14 @@ def superfluous_lattice_option(chk, decks, thorough):
     chk.extra['superfluous_lattice_option'] = {'run': len(jobs), 'refused_with_diagnostic': nrefused, 'converted': len(good)}
 
 
+def _leaves(t):
+    if t[0] == 'S':
+        return [t[1]]
+    if t[0] in ('*', ':'):
+        return [x for k in t[1:] for x in _leaves(k)]
+    return []
+
+
 def main(prop='C06', module='GenLat'):
     from .. import replay
     replay.maybe_replay(prop)
@@ -239,6 +254,30 @@ def main(prop='C06', module='GenLat'):
     if not decks:
         chk.machinery('no deck generated')
         return chk.finish()
+    if module == 'GenHex':
+        # six-plane prisms: the two planes of the first pair carry a TR card that displaces them along the prism axis,
+        # i.e. within themselves - the same planes, reference points at another height
+        for i, d in enumerate(decks):
+            if i % 3 != 1:
+                continue
+            d = decks[i] = adeck.normalise(d)
+            lat = [c for c in d['cells'] if c['lat'] == 2]
+            if len(lat) != 1 or d.get('trs'):
+                continue
+            lv = [lf for lf in _leaves(lat[0]['geom'])]
+            if len(lv) != 6:
+                continue
+            surfs = {sf['n']: sf for sf in d['surfs']}
+            planes = [surfs.get(abs(n)) for n in lv[:4]]
+            if any(p is None or p['k'] != 'p' or p.get('tr') for p in planes):
+                continue
+            n1, n2 = planes[0]['p'][:3], planes[2]['p'][:3]
+            axis = [n1[1] * n2[2] - n1[2] * n2[1], n1[2] * n2[0] - n1[0] * n2[2], n1[0] * n2[1] - n1[1] * n2[0]]
+            g = max(abs(v) for v in axis) or 1
+            axis = [v // g if v % g == 0 else v for v in axis]
+            for p in planes[:2]:
+                p['tr'] = 7
+            d['trs'] = [{'n': 7, 'o': [3 * v for v in axis], 'm': list(adeck.IDM), 'spell': '3'}]
     # every fourth deck is followed by its twin with all lengths doubled: the same plane normals, another pitch
     # (converted by the same worker process right after it)
     twinned = []
